@@ -1312,4 +1312,21 @@ theorem acceptedD_eq (cfg : Cfg) (ds : List Dgram) : ∀ r, acceptedD cfg r ds =
     · cases hm : d.msg <;> simp [acceptedD, payloads, stepD, h, ih, hm, accepted, acceptedBy, step]
 
 
+/-! ### Sender side of an endpoint: nonces -/
+
+theorem recv_chal_decrypted {cfg : Cfg} {r : Recip} {ev : Ev} (h : (recv cfg r ev).2 = .chal) :
+    decrypted cfg r ev = true := by
+  unfold recv at h
+  unfold decrypted
+  dsimp only at h ⊢
+  cases hv : (if (!r.init || !cfg.b12) = true then validate cfg r ev.piv else VRes.ok r) with
+  | ub => rw [hv] at h; cases h
+  | rej r1 => rw [hv] at h; cases h
+  | ok r1 =>
+    rw [hv] at h
+    dsimp only at h ⊢
+    cases ha : ev.authentic with
+    | true => rfl
+    | false => simp [ha] at h
+
 end Coap.Replay
